@@ -20,11 +20,21 @@ LEVEL_TEXT = (
     "ascending bounds; with C12 no built shell is coarser than requested. The shipped preset tables (regenerated) are "
     "decided in the kernel: the branch from_preset takes fits the data shape for every (preset, element) except three "
     "defective table entries, whose negations are proved. Tie: arithmetic of the assembly loop and the branch predicate "
-    "are regenerated from the source; the hand model is compared with the implementation on random grids."
+    "are regenerated from the source; the hand model is compared with the implementation on random grids. "
+    "Round 2: `_find_degrees_for_radial_points`, `_generate_degree_from_radius`, `_input_type_check`, the constructor's "
+    "handling of degrees / sizes / rotate / centre and `from_pruned` are translated statement by statement from the AST "
+    "(Gen/AtomGrid.lean) and proved equal to the hand model (gen_*_eq_model, for every argument kind: None / list-or-array "
+    "/ other, int / NumPy integer / bool seeds); sector_degree and the sector clause of preset_builds are restated over "
+    "the generated lookup (sector_degree_gen: the degree at position i is that of the sector in which the radius "
+    "rpoints[i] itself lies, whatever the order of the radial array; preset_request_sector_gen); pruned_builds: "
+    "from_pruned builds a product grid whose shell at radius r has the least supported degree not below the degree "
+    "requested for r's sector; _input_type_check accepts exactly the OneDGrids with a non-negative domain start, at "
+    "least one node and no negative node, and centres of shape (3,); rotate=True/False act as the seeds 1/0, a "
+    "NumPy-integer seed is rejected by the shell loop (gen_init_bool, gen_init_npInt_rejected)."
 )
 TECHNIQUE = "Lean 4 proof (structure theorems + kernel-decided regenerated preset table) + differential correspondence + implementation-side oracle"
-GEN = ["angular_tables", "presets"]
-LEAN_MODULES = ["GridVerif.Props.C05"]
+GEN = ["angular_tables", "presets", "atomgrid"]
+LEAN_MODULES = ["GridVerif.Props.C05", "GridVerif.Props.C05.Gen"]
 THEOREMS = [
     "GridVerif.C05.indices_spec",
     "GridVerif.C05.slice_shell",
@@ -51,6 +61,17 @@ THEOREMS = [
     "GridVerif.C05.preset_request_fails_at_sg3_14",
     "GridVerif.C05.preset_sizes_supported",
     "GridVerif.C05.preset_prescribed_size",
+    "GridVerif.C05.gen_find_degrees_eq_model",
+    "GridVerif.C05.gen_generate_degree_eq_model",
+    "GridVerif.C05.gen_input_type_check_spec",
+    "GridVerif.C05.gen_init_eq_model",
+    "GridVerif.C05.gen_init_int_eq_model",
+    "GridVerif.C05.gen_init_bool",
+    "GridVerif.C05.gen_init_npInt_rejected",
+    "GridVerif.C05.gen_from_pruned_eq_model",
+    "GridVerif.C05.sector_degree_gen",
+    "GridVerif.C05.preset_request_sector_gen",
+    "GridVerif.C05.pruned_builds",
 ]
 RULE = (
     "correspondence: AtomGrid(...) / from_pruned / from_preset / get_shell_grid / _find_degrees_for_radial_points / "
@@ -58,11 +79,20 @@ RULE = (
     "preset degree and size sequences, 4 angular methods, random centres and rotation seeds, against the Lean model fed "
     "with the angular data AngularGrid hands out and SciPy's matrices for the seeds rotate+i; every preset x tabulated "
     "element through the model's table reader. non-trivial = at least 2 distinct shell degrees, or a non-zero seed, or a "
-    "non-zero centre, or an error outcome"
+    "non-zero centre, or an error outcome. Round 2: every construction runs the *regenerated* constructor / from_pruned / "
+    "sector lookup (Gen/AtomGrid.lean) in the driver; argument kinds: degrees / sizes as list, int64 / int32 array, tuple, "
+    "None, both given; rotate as int, np.int64, True / False, float; centre as None, list of floats / ints, tuple, int / "
+    "float32 array, wrong length; radial grids ascending, reversed, two rules back to back, unsorted, with repeated and "
+    "r = 0 nodes, as float64 / float32 / int64 / non-contiguous / read-only arrays, with domain (0, inf), (0, rmax), None, "
+    "a negative domain start, a negative node, or not a OneDGrid at all; every successful construction is repeated later "
+    "in the run (other constructions in between) and compared bit for bit"
 )
 TRUSTED_BASE = [
     "Lean 4.33 kernel; axioms propext, Classical.choice, Quot.sound only (audited per theorem)",
     "translator harness/translate/presets.py (branch predicate, loop arithmetic, npz tables)",
+    "translator harness/translate/atomgrid.py (statement-wise AST translation of __init__ / from_pruned / _input_type_check / "
+    "_generate_degree_from_radius / _find_degrees_for_radial_points over the typing context stated in its docstring; the "
+    "NumPy / Python primitives it targets are hand-written in Model/AtomGrid.lean)",
     "hand model Model/AtomGrid.lean (list/flatten structure of the assembly loop), tied by correspondence",
     "NumPy vstack/hstack/broadcast/slice semantics as modelled by List.flatten/map/take/drop",
 ]
@@ -148,9 +178,32 @@ def _rand_rotate(ctx: Ctx, n):
     return ctx.rng.randrange(1, 2 ** 32 - n)
 
 
-def _build_line(ang, method, kind, reqs, rotate, center, pts, wts, shellreqs):
-    """One C05.build line; the angular data of every degree the request can resolve to (brute-force
-    minimum over the table, not the implementation's bisect) and SciPy's matrices for rotate+i."""
+def _seq_tok(x):
+    """None -> none, a str -> other (tuple, int, ...), a list -> seq"""
+    if x is None:
+        return "none"
+    if isinstance(x, str):
+        return "other"
+    return "seq " + vec([int(v) for v in x])
+
+
+def _rot_tok(kind, val):
+    return {"int": f"int {int(val)}", "npint": f"npint {int(val)}", "bool": f"bool {int(bool(val))}", "other": "other"}[kind]
+
+
+def _center_tok(c):
+    return "none" if c is None else "vec " + fvec([float(v) for v in c])
+
+
+def _rgrid_tok(pts, wts, is_onedgrid=True, domain=(0.0, np.inf)):
+    dom = "nodom" if domain is None else f"dom {f2b(domain[0])} {f2b(domain[1])}"
+    return f"{1 if is_onedgrid else 0} {dom} {fvec([float(v) for v in pts])} {fvec([float(v) for v in wts])}"
+
+
+def _world(ang, method, kind, reqs, rotate, n, shellreqs):
+    """The outside world handed to the model: the angular data of every degree the request can resolve to
+    (brute-force minimum over the table, not the implementation's bisect), SciPy's matrices for rotate+i,
+    the shell-grid requests."""
     pairs = _supported(ang, method)
     degs = set()
     for q in reqs:
@@ -161,13 +214,37 @@ def _build_line(ang, method, kind, reqs, rotate, center, pts, wts, shellreqs):
     for d in sorted(degs):
         g = ang.AngularGrid(degree=d, method=method)
         data.append(f"{d} {g.size} " + " ".join(map(f2b, g.points.ravel())) + " " + " ".join(map(f2b, g.weights)))
-    n = len(pts)
     seeds = [rotate + i for i in range(n)] if rotate != 0 else []
-    mats = [f"{s} " + " ".join(map(f2b, _rotmat(s).ravel())) for s in seeds if s < 2 ** 32]
-    c = np.zeros(3) if center is None else center
-    return " ".join(["C05.build", method, kind, vec(reqs), str(rotate), " ".join(map(f2b, c)), fvec(pts), fvec(wts),
-                     str(len(data))] + data + [str(len(mats))] + mats
+    mats = [f"{s} " + " ".join(map(f2b, _rotmat(s).ravel())) for s in seeds if 0 <= s < 2 ** 32]
+    return " ".join([str(len(data))] + data + [str(len(mats))] + mats
                     + [str(len(shellreqs))] + [f"{i} {1 if b else 0}" for i, b in shellreqs])
+
+
+def _ginit_line(ang, method, degrees, sizes, rot_kind, rot_val, center, pts, wts, shellreqs, is_onedgrid=True,
+                domain=(0.0, np.inf)):
+    """One C05.ginit line = the regenerated `AtomGrid.__init__` on Python-level arguments."""
+    if isinstance(sizes, list):
+        kind, reqs = "size", sizes
+    elif isinstance(degrees, list):
+        kind, reqs = "deg", degrees
+    else:
+        kind, reqs = "deg", []
+    rv = int(rot_val) if rot_kind in ("int", "npint", "bool") else 0
+    return " ".join(["C05.ginit", method, _seq_tok(degrees), _seq_tok(sizes), _center_tok(center), _rot_tok(rot_kind, rot_val),
+                     _rgrid_tok(pts, wts, is_onedgrid, domain), _world(ang, method, kind, reqs, rv, len(pts), shellreqs)])
+
+
+def _build_line(ang, method, kind, reqs, rotate, center, pts, wts, shellreqs):
+    """plain call `AtomGrid(rgrid, degrees=reqs | None, sizes=reqs | None, center, rotate: int)`"""
+    return _ginit_line(ang, method, list(reqs) if kind == "deg" else None, list(reqs) if kind == "size" else None,
+                       "int", rotate, center, pts, wts, shellreqs)
+
+
+def _gpruned_line(ang, method, dsec, ssec, radius, rsect, center, rotate, pts, wts, degs_for_data, shellreqs):
+    """One C05.gpruned line = the regenerated `AtomGrid.from_pruned`."""
+    opt = lambda x: "none" if x is None else "seq " + vec([int(v) for v in x])  # noqa: E731
+    return " ".join(["C05.gpruned", method, opt(dsec), opt(ssec), f2b(radius), fvec(rsect), _center_tok(center),
+                     _rot_tok("int", rotate), _rgrid_tok(pts, wts), _world(ang, method, "deg", degs_for_data, rotate, len(pts), shellreqs)])
 
 
 class Ans:
@@ -454,7 +531,8 @@ def corr(ctx: Ctx):
             ctx.fail("corr", "AtomGrid._generate_degree_from_radius", f"{case}: implementation {impl}, model {line}", witness=case)
         elif impl.startswith("ok") and len(follow) < ctx.n(25, 300):
             follow.append(((m, kd, s, rad, rs, p, w, c, rot), [int(x) for x in line.split()[2:]], case))
-    lines = [_build_line(ang, m, "deg", degs, rot, c, p, w, [(0, True)]) for (m, kd, s, rad, rs, p, w, c, rot), degs, _ in follow]
+    lines = [_gpruned_line(ang, m, s if kd == "deg" else None, s if kd == "size" else None, rad, rs, c, rot, p, w, degs, [(0, True)])
+             for (m, kd, s, rad, rs, p, w, c, rot), degs, _ in follow]
     answers = driver_batch(lines)
     for ((m, kd, s, rad, rs, p, w, c, rot), degs, case), line in zip(follow, answers):
         if line == "bad-op":
@@ -569,6 +647,282 @@ def corr(ctx: Ctx):
                 if [int(x) for x in np.diff(g.indices)] != [r[1] for r in res]:
                     ctx.fail("corr", "AtomGrid.from_preset", f"{case}: shell sizes differ from the model's table reading", witness=case)
     ctx.extra["presets_pairs_checked"] = len(pairs_pz)
+    # ---- 5. argument kinds, radial orders, repeated constructions (round 2)
+    _corr_kinds(ctx, ag, ang, bg)
+
+
+# ----------------------------------------------------------------------------
+# round 2: argument kinds, radial orders, repeated constructions
+# ----------------------------------------------------------------------------
+ORDERS = ["ascending", "reversed", "two-rules", "unsorted", "repeated"]
+
+
+def _ordered_rgrid(ctx: Ctx, order):
+    """radial nodes in an explicit order (the API does not require any) with positive weights"""
+    rng = ctx.rng
+    n = rng.choice([2, 3, 4, 5, 7])
+    pts = sorted(rng.choice([rng.uniform(0.0, 3.0), rng.uniform(0, 12.0)]) for _ in range(n))
+    if rng.random() < 0.25:
+        pts[0] = 0.0
+    if order == "reversed":
+        pts = pts[::-1]
+    elif order == "two-rules":  # e.g. two quadrature rules glued: ascending, then ascending again from below
+        k = rng.randrange(1, n)
+        pts = pts[k:] + pts[:k]
+    elif order == "unsorted":
+        rng.shuffle(pts)
+    elif order == "repeated":
+        pts[rng.randrange(n)] = pts[rng.randrange(n)]
+        rng.shuffle(pts)
+    wts = [rng.uniform(0.05, 2.0) for _ in range(n)]
+    return np.array(pts, dtype=float), np.array(wts, dtype=float)
+
+
+def _exact32(ctx, lo, hi):
+    """a value exactly representable in float32 (so that float32 / int inputs equal their float64 value)"""
+    return round(ctx.rng.uniform(lo, hi) * 64) / 64
+
+
+def _py_seq(ctx: Ctx, xs, kind):
+    return {"list": list(xs), "int64": np.array(xs, dtype=np.int64), "int32": np.array(xs, dtype=np.int32),
+            "tuple": tuple(xs), "readonly": _readonly(np.array(xs, dtype=np.int64))}[kind]
+
+
+def _readonly(a):
+    a.flags.writeable = False
+    return a
+
+
+def _py_rgrid(ctx: Ctx, bg, pts, wts, dkind, domain):
+    """OneDGrid over arrays of the requested dtype / layout; the model sees the float64 values"""
+    if dkind == "float32":
+        P, W = np.array(pts, dtype=np.float32), np.array(wts, dtype=np.float32)
+    elif dkind == "int64":
+        P, W = np.array(pts, dtype=np.int64), np.array(wts, dtype=np.int64)
+    elif dkind == "noncontig":
+        P, W = np.repeat(np.array(pts, dtype=float), 2)[::2], np.repeat(np.array(wts, dtype=float), 3)[::3]
+    elif dkind == "readonly":
+        P, W = _readonly(np.array(pts, dtype=float)), _readonly(np.array(wts, dtype=float))
+    else:
+        P, W = np.array(pts, dtype=float), np.array(wts, dtype=float)
+    return bg.OneDGrid(P, W, domain)
+
+
+def _corr_kinds(ctx: Ctx, ag, ang, bg):
+    """AGENT_ROUND2 classes 1 (state), 2 (dtype / container), 3 (identity), 5 (order), 6 (call paths) for the
+    constructor and from_pruned: the model is the *regenerated* code run on the same Python-level arguments."""
+    AtomGrid = ag.AtomGrid
+    rng = ctx.rng
+    cases = []
+    for k in range(ctx.n(220, 3000)):
+        method = METHODS[k % 4] if k < 16 else rng.choice(METHODS)
+        pairs = _supported(ang, method)
+        order = ORDERS[k % len(ORDERS)] if k < 40 else rng.choice(ORDERS)
+        pts, wts = _ordered_rgrid(ctx, order)
+        dkind = rng.choice(["float64", "float64", "float32", "int64", "noncontig", "readonly"])
+        if dkind in ("float32", "int64"):
+            q = 1 if dkind == "int64" else 64
+            pts = np.array([round(v * q) / q for v in pts])
+            wts = np.array([max(1, round(v * q)) / q for v in wts])
+        n = len(pts)
+        # domain / acceptance of the radial grid
+        rk = rng.random()
+        is_one, domain, rkind = True, (0.0, np.inf), "dom0inf"
+        if rk < 0.12:
+            domain, rkind = None, "nodom"
+        elif rk < 0.22:
+            domain, rkind = (0.0, float(np.max(pts)) + 1.0), "dom0max"
+        elif rk < 0.25:
+            domain, rkind = (-1.0, float(np.max(pts)) + 1.0), "domneg"
+        elif rk < 0.28:
+            domain, rkind = None, "negnode"
+            pts = pts.copy()
+            pts[rng.randrange(n)] = -float(rng.randrange(1, 3)) if dkind == "int64" else rng.choice([-0.015625, -0.5, -1.0, -float(_exact32(ctx, 0.1, 2.0))])
+        elif rk < 0.30:
+            is_one, rkind = False, "notonedgrid"
+        dmax = MAXDEG[method]
+        smax = max(s for d, s in pairs if d <= dmax)
+        # request
+        form = rng.choice(["deg", "deg", "deg", "deg1", "size", "size", "size1", "both", "both", "default+size"] + (["none", "empty"] if rng.random() < 0.2 else []))
+        degrees = sizes = None
+        if form == "deg":
+            degrees = [rng.randrange(0, dmax + 1) for _ in range(n)]
+        elif form == "deg1":
+            degrees = [rng.randrange(0, dmax + 1)]
+        elif form == "size":
+            sizes = [rng.randrange(0, smax + 1) for _ in range(n)]
+        elif form == "size1":
+            sizes = [rng.randrange(0, smax + 1)]
+        elif form == "both":  # sizes win, whatever the degrees are (even of a wrong length)
+            degrees = [rng.randrange(0, dmax + 1) for _ in range(rng.choice([n, 1, n + 1]))]
+            sizes = [rng.randrange(0, smax + 1) for _ in range(rng.choice([n, n, 1]))]
+        elif form == "default+size":
+            degrees, sizes = "default", [rng.randrange(0, smax + 1) for _ in range(n)]
+        elif form == "empty":
+            degrees = []
+        dk = rng.choice(["list", "list", "int64", "int64", "int32", "int32", "readonly", "readonly", "tuple"])
+        sk = rng.choice(["list", "list", "int64", "int64", "int32", "int32", "readonly", "readonly", "tuple"])
+        # rotate
+        rot_kind = rng.choice(["int"] * 7 + ["bool", "bool", "bool", "npint", "other"])
+        if rot_kind == "bool":
+            rot_val = rng.random() < 0.6
+        elif rot_kind == "other":
+            rot_val = 3.0
+        else:
+            rot_val = rng.choice([0, 0, rng.randrange(1, 100000), rng.randrange(1, 100000), 2 ** 32 - n - 1, 2 ** 32 - n])
+        # centre
+        ck = rng.choice(["none", "list", "intlist", "tuple", "intarray", "float32", "array", "readonly"] * 3 + ["short", "long"])
+        cvals = [float(_exact32(ctx, -4, 4)) for _ in range(3)]
+        if ck in ("intlist", "intarray"):
+            cvals = [float(rng.randrange(-4, 5)) for _ in range(3)]
+        if ck == "short":
+            cvals = cvals[:2]
+        if ck == "long":
+            cvals = cvals + [1.0]
+        center = None if ck == "none" else cvals
+        cases.append(dict(method=method, order=order, pts=pts, wts=wts, dkind=dkind, is_one=is_one, domain=domain, rkind=rkind,
+                          form=form, degrees=degrees, sizes=sizes, dk=dk, sk=sk, rot_kind=rot_kind, rot_val=rot_val, ck=ck,
+                          center=center, sreq=_shellreqs(ctx, n)))
+
+    def tok_seq(x, kind):
+        if x is None:
+            return None
+        if x == "default":
+            return [50]
+        return "tuple" if kind == "tuple" else list(x)
+
+    lines = [_ginit_line(ang, c["method"], tok_seq(c["degrees"], c["dk"]), tok_seq(c["sizes"], c["sk"]), c["rot_kind"], c["rot_val"],
+                         c["center"], c["pts"], c["wts"], c["sreq"], c["is_one"], c["domain"]) for c in cases]
+    answers = driver_batch(lines)
+    rebuilt = []
+    for c, line in zip(cases, answers):
+        case = {"op": "AtomGrid", "method": c["method"], "radial_order": c["order"], "rgrid_dtype": c["dkind"], "rgrid_kind": c["rkind"],
+                "rgrid_points": c["pts"].tolist(), "rgrid_weights": c["wts"].tolist(), "degrees": c["degrees"], "degrees_as": c["dk"],
+                "sizes": c["sizes"], "sizes_as": c["sk"], "rotate": [c["rot_kind"], c["rot_val"]], "center": c["center"], "center_as": c["ck"]}
+        if line == "bad-op":
+            ctx.fail("corr", "AtomGrid.__init__:kinds", f"{case}: the model could not run (bad-op)", witness=case)
+            continue
+        a = Ans(line)
+
+        def impl(c=c):
+            if not c["is_one"]:
+                rgrid = bg.Grid(np.array(c["pts"], dtype=float), np.array(c["wts"], dtype=float))
+            else:
+                rgrid = _py_rgrid(ctx, bg, c["pts"], c["wts"], c["dkind"], c["domain"])
+            kw = {}
+            if c["degrees"] != "default":
+                kw["degrees"] = None if c["degrees"] is None else _py_seq(ctx, c["degrees"], c["dk"])
+            if c["sizes"] is not None:
+                kw["sizes"] = _py_seq(ctx, c["sizes"], c["sk"])
+            cen = c["center"]
+            if cen is not None:
+                cen = {"list": list(cen), "intlist": [int(v) for v in cen], "tuple": tuple(cen), "intarray": np.array(cen, dtype=np.int64),
+                       "float32": np.array(cen, dtype=np.float32), "array": np.array(cen), "short": list(cen), "long": list(cen),
+                       "readonly": _readonly(np.array(cen))}[c["ck"]]
+            rot = {"int": int(c["rot_val"]), "npint": np.int64(c["rot_val"]), "bool": bool(c["rot_val"]), "other": c["rot_val"]}[c["rot_kind"]]
+            return AtomGrid(rgrid, center=cen, rotate=rot, method=c["method"], **kw)
+
+        cen_arr = None if c["center"] is None or len(c["center"]) != 3 else np.array(c["center"])
+        g = _compare_grid(ctx, "AtomGrid.__init__:kinds", case, impl, a, np.abs(c["pts"]), cen_arr, c["sreq"])
+        tag = (f"kinds:{c['order']}:{c['dkind']}:{c['rkind']}:{c['form']}:deg-{c['dk']}:size-{c['sk']}:rot-{c['rot_kind']}:center-{c['ck']}"
+               + (":" + a.tag if a.tag != "ok" else ""))
+        ctx.count(case, nontrivial=True, tag=tag)
+        if g is not None:
+            if g.points.dtype != np.float64 or g.weights.dtype != np.float64:
+                ctx.fail("corr", "AtomGrid.__init__:dtype", f"{case}: points / weights are {g.points.dtype} / {g.weights.dtype}, not float64", witness=case)
+            rebuilt.append((impl, g, case))
+    # class 1 (state carried between calls): every successful construction again, in reverse order, after all the
+    # others (same degrees under other methods / seeds / centres in between): bit for bit the same grid
+    for impl, g, case in reversed(rebuilt):
+        try:
+            g2 = impl()
+        except Exception as e:  # noqa: BLE001
+            ctx.fail("corr", "AtomGrid.__init__:rebuild", f"{case}: the second construction raises {type(e).__name__}: {e}", witness=case)
+            continue
+        same = (np.array_equal(g2.points, g.points) and np.array_equal(g2.weights, g.weights)
+                and list(map(int, g2.indices)) == list(map(int, g.indices)) and list(map(int, g2.degrees)) == list(map(int, g.degrees)))
+        ctx.count(dict(case, rebuild=True), nontrivial=True, tag="kinds:rebuild")
+        if not same:
+            ctx.fail("corr", "AtomGrid.__init__:rebuild", f"{case}: the same construction repeated later in the process gives another grid", witness=case)
+
+    # ---- from_pruned on explicit radial orders and argument kinds --------------------------------------------
+    pr = []
+    for k in range(ctx.n(100, 1500)):
+        method = rng.choice(METHODS)
+        pairs = _supported(ang, method)
+        order = ORDERS[k % len(ORDERS)]
+        pts, wts = _ordered_rgrid(ctx, order)
+        S = rng.randrange(1, 4)
+        rsect = sorted(rng.uniform(0.05, 4) for _ in range(S))
+        radius = rng.choice([1.0, rng.uniform(0.3, 3.0)])
+        if rng.random() < 0.5:
+            pts[rng.randrange(len(pts))] = rsect[rng.randrange(S)] * radius  # a node on a bound
+        dmax = MAXDEG[method]
+        smax = max(s for d, s in pairs if d <= dmax)
+        form = rng.choice(["d", "d", "d", "s", "both", "neither"])
+        dsec = [rng.randrange(0, dmax + 1) for _ in range(S + 1)] if form in ("d", "both") else None
+        ssec = [rng.randrange(0, smax + 1) for _ in range(S + 1)] if form in ("s", "both") else None
+        ckind = rng.choice(["list", "int64", "tuple"])
+        rot = rng.choice([0, rng.randrange(1, 10 ** 5)])
+        cen = rng.choice([None, [float(_exact32(ctx, -3, 3)) for _ in range(3)]])
+        pr.append((method, order, pts, wts, rsect, radius, form, dsec, ssec, ckind, rot, cen))
+    # the degrees the shells can get (for the angular data handed to the model)
+    lines = []
+    for (m, order, pts, wts, rsect, radius, form, dsec, ssec, ckind, rot, cen) in pr:
+        pairs = _supported(ang, m)
+        if ssec is not None:
+            poss = [(_least_size(pairs, x) or (0, 0))[0] for x in ssec]
+        elif dsec is not None:
+            poss = list(dsec)
+        else:
+            poss = []
+        lines.append(_gpruned_line(ang, m, dsec, ssec, radius, rsect, cen, rot, pts, wts, poss, [(len(pts) - 1, True)]))
+    answers = driver_batch(lines)
+    for (m, order, pts, wts, rsect, radius, form, dsec, ssec, ckind, rot, cen), line in zip(pr, answers):
+        case = {"op": "from_pruned", "method": m, "radial_order": order, "rgrid_points": pts.tolist(), "rgrid_weights": wts.tolist(),
+                "radius": radius, "r_sectors": rsect, "d_sectors": dsec, "s_sectors": ssec, "sectors_as": ckind, "rotate": rot, "center": cen}
+        if line == "bad-op":
+            ctx.fail("corr", "AtomGrid.from_pruned:kinds", f"{case}: the model could not run (bad-op)", witness=case)
+            continue
+
+        def impl(m=m, pts=pts, wts=wts, rsect=rsect, radius=radius, dsec=dsec, ssec=ssec, ckind=ckind, rot=rot, cen=cen):
+            conv = {"list": list, "int64": lambda x: np.array(x, dtype=np.int64), "tuple": tuple}[ckind]
+            rconv = {"list": list, "int64": np.array, "tuple": tuple}[ckind]
+            return AtomGrid.from_pruned(_onedgrid(bg, pts, wts), radius, r_sectors=rconv(rsect), d_sectors=None if dsec is None else conv(dsec),
+                                        s_sectors=None if ssec is None else conv(ssec), center=cen, rotate=rot, method=m)
+
+        a = Ans(line)
+        _compare_grid(ctx, "AtomGrid.from_pruned:kinds", case, impl, a, pts, None if cen is None else np.array(cen), [(len(pts) - 1, True)])
+        ctx.count(case, nontrivial=True, tag=f"pruned-kinds:{order}:{form}:{ckind}" + (":" + a.tag if a.tag != "ok" else ""))
+
+    # ---- _input_type_check on its own ------------------------------------------------------------------------
+    chk = []
+    NEG = [-1e-300, -1e-9, -0.5, -1.0, -1.5, -2.0]  # just below the threshold 0.0 and further away
+    for k in range(ctx.n(120, 1200)):
+        n = rng.randrange(0, 4) if k >= 12 else 1 + k % 3
+        pts = [rng.choice([0.0, 1e-300, rng.uniform(0, 5)]) if rng.random() < 0.3 else rng.uniform(0, 5) for _ in range(n)]
+        if n and (k < 12 or rng.random() < 0.4):
+            pts[rng.randrange(n)] = NEG[k % len(NEG)]
+        dom = rng.choice([None, None, (0.0, np.inf), (-1.0, 10.0), (-1e-300, 10.0), (0.0, 10.0)])
+        cl = [0.0] * rng.choice([3, 3, 3, 2, 4, 0])
+        chk.append((pts, dom, cl))
+    answers = driver_batch([f"C05.gcheck {_rgrid_tok(p, [1.0] * len(p), True, d)} {fvec(c)}" for p, d, c in chk])
+    for (p, d, c), line in zip(chk, answers):
+        case = {"op": "_input_type_check", "rgrid_points": p, "domain": d, "center_len": len(c)}
+        try:
+            if d is not None and d[0] >= 0 and any(v < 0 or v > d[1] for v in p):
+                continue  # OneDGrid itself rejects nodes outside the domain
+            rg = bg.OneDGrid(np.array(p, dtype=float), np.ones(len(p)), d)
+        except Exception:  # noqa: BLE001
+            continue
+        try:
+            AtomGrid._input_type_check(rg, np.array(c, dtype=float))
+            impl = "ok"
+        except (TypeError, ValueError) as e:
+            impl = _exc_tag(e)
+        ctx.count(case, nontrivial=True, tag="input-type-check:" + impl)
+        if impl != line:
+            ctx.fail("corr", "AtomGrid._input_type_check", f"{case}: implementation {impl}, model {line}", witness=case)
 
 
 def _raise(tag):
@@ -599,6 +953,16 @@ try:
     g = AtomGrid.from_preset(atnum, preset, rgrid)
 except Exception as e:
     raise AssertionError(f'from_preset({{atnum}}, {{preset!r}}) with {{n}} radial points raises {{type(e).__name__}}: {{e}}')
+"""
+
+SNIP_PRUNED = SNIP_HEAD + """pts, wts = np.array({pts!r}), np.array({wts!r})
+radius, rsect, dsec, method = {radius!r}, {rsect!r}, {dsec!r}, {method!r}
+g = AtomGrid.from_pruned(OneDGrid(pts, wts, (0, np.inf)), radius, r_sectors=rsect, d_sectors=dsec, method=method)
+bounds = np.array(rsect) * radius
+for i, r in enumerate(pts):
+    k = sum(1 for b in bounds if b < r)  # sectors are (b_(k-1), b_k]
+    want = AngularGrid(degree=dsec[k], method=method).degree  # least supported degree not below the request
+    assert g.degrees[i] == want, f'shell {{i}} at r={{r}} lies in sector {{k}} (requested degree {{dsec[k]}}, built {{want}}) but has degree {{g.degrees[i]}}'
 """
 
 SNIP_GRID = SNIP_HEAD + """from scipy.spatial.transform import Rotation
@@ -733,6 +1097,7 @@ def oracle(ctx: Ctx, budget: str):
     ag, ang, bg = _mods()
     AtomGrid = ag.AtomGrid
     rng = ctx.rng
+    _oracle_kinds(ctx, ag, ang, bg, budget)
     # ---- random grids -----------------------------------------------------------------------
     for k in range(24 if budget == "small" else 400):
         method = METHODS[k % 4]
@@ -752,10 +1117,12 @@ def oracle(ctx: Ctx, budget: str):
             ctx.fail("oracle", "atomgrid.AtomGrid", f"construction raised {type(e).__name__}: {e} [method={method}, degrees={degs}, rotate={rotate}]",
                      witness={"rgrid_points": pts.tolist(), "degrees": degs, "rotate": rotate, "method": method})
     # ---- pruned sectors: degree of each shell is the one of its sector, never below the request -----
-    for k in range(20 if budget == "small" else 300):
+    for k in range(30 if budget == "small" else 400):
         method = rng.choice(METHODS)
         pairs = _supported(ang, method)
-        pts, wts = _rand_rgrid(ctx)
+        # radial nodes in every order the API admits: the first ten runs walk through the explicit orders
+        # (ascending, reversed, two rules back to back, unsorted, repeated nodes), then random grids
+        pts, wts = _ordered_rgrid(ctx, ORDERS[k % len(ORDERS)]) if k < 10 or rng.random() < 0.5 else _rand_rgrid(ctx)
         S = rng.randrange(1, 5)
         rsect = sorted(rng.uniform(0.05, 4) for _ in range(S))
         radius = rng.uniform(0.3, 3.0)
@@ -770,7 +1137,8 @@ def oracle(ctx: Ctx, budget: str):
             if int(g.degrees[i]) != want[0] or int(g.degrees[i]) < dsec[ksec]:
                 ctx.fail("oracle", "atomgrid.AtomGrid.from_pruned",
                          f"r={r!r} lies in sector {ksec} of bounds {bounds.tolist()} (requested degree {dsec[ksec]}) but the shell has degree {g.degrees[i]}",
-                         witness={"rgrid_points": pts.tolist(), "radius": radius, "r_sectors": rsect, "d_sectors": dsec, "method": method})
+                         witness={"rgrid_points": pts.tolist(), "radius": radius, "r_sectors": rsect, "d_sectors": dsec, "method": method},
+                         snippet=SNIP_PRUNED.format(pts=pts.tolist(), wts=wts.tolist(), radius=radius, rsect=rsect, dsec=dsec, method=method))
                 break
     # ---- every shipped preset x every element it tabulates ---------------------------------------
     tabs = _preset_tables()
@@ -797,6 +1165,15 @@ def oracle(ctx: Ctx, budget: str):
             if not shell_count and npts_r > 2:
                 rp[rng.randrange(npts_r)] = float(rad[rng.randrange(len(rad))])
                 rp = np.sort(rp)
+                # sector form assigns by radius, not by position: any node order must do
+                od = rng.choice(ORDERS)
+                if od == "reversed":
+                    rp = rp[::-1].copy()
+                elif od == "two-rules":
+                    kk = rng.randrange(1, npts_r)
+                    rp = np.concatenate([rp[kk:], rp[:kk]])
+                elif od in ("unsorted", "repeated"):
+                    rp = np.array(rng.sample(rp.tolist(), npts_r))
             for m in meths:
                 pairs = _supported(ang, m)
                 try:
@@ -846,3 +1223,125 @@ def oracle(ctx: Ctx, budget: str):
             continue
         _oracle_grid(ctx, ag, ang, bg, "lebedev", rp, np.full(n, 0.37), [int(d) for d in g.degrees], rng.randrange(1, 1000),
                      np.array([0.3, -1.0, 2.0]), f"atomgrid.AtomGrid.from_preset:{p}")
+
+
+def _oracle_kinds(ctx: Ctx, ag, ang, bg, budget):
+    """Implementation-side (no model): the grid does not depend on the container / dtype of its arguments, True / False
+    are the seeds 1 / 0, rebuilding gives the same grid, and a permutation of the radial nodes permutes the shells."""
+    AtomGrid = ag.AtomGrid
+    rng = ctx.rng
+    for k in range(12 if budget == "small" else 150):
+        method = METHODS[k % 4]
+        pts, wts = _ordered_rgrid(ctx, ORDERS[k % len(ORDERS)])
+        pts = np.array([round(v * 64) / 64 for v in pts])
+        wts = np.array([max(1, round(v * 64)) / 64 for v in wts])
+        n = len(pts)
+        degs = [rng.randrange(0, MAXDEG[method] + 1) for _ in range(n)]
+        cen = [float(rng.randrange(-3, 4)) for _ in range(3)]
+        rot = rng.choice([0, 1, rng.randrange(2, 10 ** 5)])
+        wit = {"method": method, "rgrid_points": pts.tolist(), "rgrid_weights": wts.tolist(), "degrees": degs, "center": cen, "rotate": rot}
+        ref = AtomGrid(_onedgrid(bg, pts, wts), degrees=list(degs), center=np.array(cen), rotate=rot, method=method)
+
+        def same(g, what):
+            ok = (np.array_equal(g.points, ref.points) and np.array_equal(g.weights, ref.weights)
+                  and list(map(int, g.indices)) == list(map(int, ref.indices)) and list(map(int, g.degrees)) == list(map(int, ref.degrees)))
+            ctx.count(["oracle-kinds", what, wit["method"], degs, rot], nontrivial=True, tag="oracle:kinds:" + what)
+            if not ok:
+                ctx.fail("oracle", "atomgrid.AtomGrid:argument-kind", f"the grid depends on {what} [method={method}, degrees={degs}, rotate={rot}]",
+                         witness=dict(wit, variant=what))
+
+        same(AtomGrid(_onedgrid(bg, pts, wts), degrees=np.array(degs, dtype=np.int64), center=cen, rotate=rot, method=method), "degrees as int64 array, centre as list")
+        same(AtomGrid(_onedgrid(bg, pts, wts), degrees=np.array(degs, dtype=np.int32), center=tuple(cen), rotate=rot, method=method), "degrees as int32 array, centre as tuple")
+        same(AtomGrid(_onedgrid(bg, pts, wts), degrees=list(degs), center=np.array(cen, dtype=np.int64), rotate=rot, method=method), "centre as int array")
+        same(AtomGrid(_py_rgrid(ctx, bg, pts, wts, "float32", (0, np.inf)), degrees=list(degs), center=np.array(cen, dtype=np.float32), rotate=rot, method=method),
+             "radial grid and centre as float32 arrays")
+        same(AtomGrid(_py_rgrid(ctx, bg, pts, wts, "noncontig", (0, np.inf)), degrees=_readonly(np.array(degs)), center=_readonly(np.array(cen)), rotate=rot, method=method),
+             "non-contiguous / read-only arrays")
+        same(AtomGrid(_onedgrid(bg, pts, wts), degrees=list(degs), center=np.array(cen), rotate=rot, method=method), "a second construction")
+        if rot in (0, 1):
+            same(AtomGrid(_onedgrid(bg, pts, wts), degrees=list(degs), center=np.array(cen), rotate=bool(rot), method=method), "rotate given as bool")
+        # sizes win over degrees: the sizes of the reference grid's shells give the same grid whatever `degrees` says
+        shell_sizes = [int(x) for x in np.diff(ref.indices)]
+        import warnings as _w
+        with _w.catch_warnings():
+            _w.simplefilter("ignore")
+            same(AtomGrid(_onedgrid(bg, pts, wts), degrees=[rng.randrange(0, 10)] * rng.choice([1, n]), sizes=shell_sizes, center=np.array(cen), rotate=rot, method=method),
+                 "sizes given together with other degrees")
+        # a permutation of the radial nodes permutes the shells (seed 0: no rotation involved)
+        perm = list(range(n))
+        rng.shuffle(perm)
+        r0 = AtomGrid(_onedgrid(bg, pts, wts), degrees=list(degs), center=np.array(cen), rotate=0, method=method)
+        rp = AtomGrid(_onedgrid(bg, pts[perm], wts[perm]), degrees=[degs[j] for j in perm], center=np.array(cen), rotate=0, method=method)
+        ctx.count(["oracle-kinds", "perm", method, degs, perm], nontrivial=True, tag="oracle:kinds:permutation")
+        for newpos, j in enumerate(perm):
+            a = r0.points[r0.indices[j]:r0.indices[j + 1]]
+            b = rp.points[rp.indices[newpos]:rp.indices[newpos + 1]]
+            wa = r0.weights[r0.indices[j]:r0.indices[j + 1]]
+            wb = rp.weights[rp.indices[newpos]:rp.indices[newpos + 1]]
+            if not (np.array_equal(a, b) and np.array_equal(wa, wb)):
+                ctx.fail("oracle", "atomgrid.AtomGrid:radial-order", f"shell of r={pts[j]!r} changes when the radial nodes are permuted [method={method}, degrees={degs}]",
+                         witness=dict(wit, permutation=perm))
+                break
+    # information: consistent rejections found by the round-2 audit (not violations: nothing wrong is built)
+    rg = _onedgrid(bg, np.array([0.5, 1.0]), np.ones(2))
+    try:
+        AtomGrid(rg, [5], rotate=np.int64(3))
+        ctx.info("AtomGrid(rotate=np.int64(3)) is accepted")
+    except ValueError:
+        ctx.info("AtomGrid(rotate=np.int64(3)) raises ValueError: __init__ accepts (int, np.integer) but _generate_atomic_grid insists on "
+                 "isinstance(rotate, int) — a NumPy-integer seed is always rejected (Lean: gen_init_npInt_rejected); rejection, not a wrong grid")
+    for name in ("COARSE", "Fine", "SG_0"):
+        try:
+            g = AtomGrid.from_preset(1, name, _onedgrid(bg, np.linspace(0.1, 5, 23), np.ones(23)))
+            low = AtomGrid.from_preset(1, name.lower(), _onedgrid(bg, np.linspace(0.1, 5, 23), np.ones(23)))
+            if not np.array_equal(g.points, low.points):
+                ctx.fail("oracle", "atomgrid.AtomGrid.from_preset:name-case", f"preset {name!r} is accepted but builds another grid than {name.lower()!r}")
+        except Exception as e:  # noqa: BLE001
+            ctx.info(f"from_preset(1, {name!r}) is rejected ({type(e).__name__}): preset names are case-sensitive")
+            break
+    try:
+        import warnings as _w
+        with _w.catch_warnings():
+            _w.simplefilter("ignore")
+            AtomGrid(rg, None, sizes=[6], method="LEBEDEV")
+    except ValueError:
+        ctx.info("AtomGrid(sizes=[6], method='LEBEDEV') raises ValueError although AtomGrid(degrees=[3], method='LEBEDEV') is accepted "
+                 "(the method is lower-cased for _generate_atomic_grid but not for convert_angular_sizes_to_degrees); outside the typing "
+                 "context of the translator (the four lower-case method names); rejection, not a wrong grid")
+
+
+def oracle_at(ctx: Ctx, failure):
+    """A correspondence disagreement -> the property itself at that input (per-point reconstruction / sector rule)."""
+    w = failure.witness
+    if not isinstance(w, dict) or "rgrid_points" not in w or "method" not in w:
+        return
+    ag, ang, bg = _mods()
+    import warnings as _w
+    _w.simplefilter("ignore")
+    pts = np.array(w["rgrid_points"], dtype=float)
+    wts = np.array(w.get("rgrid_weights", [1.0] * len(pts)), dtype=float)
+    method = w["method"]
+    if np.any(pts < 0) or len(pts) == 0 or w.get("rgrid_kind") in ("domneg", "notonedgrid"):
+        return
+    op = w.get("op")
+    try:
+        if op == "AtomGrid":
+            degs = w.get("degrees")
+            rot = w.get("rotate")
+            rot = rot[1] if isinstance(rot, list) else rot
+            cen = w.get("center")
+            if isinstance(degs, list) and degs and w.get("sizes") is None and isinstance(rot, (int, bool)) and (cen is None or len(cen) == 3):
+                if all(0 <= d <= max(p[0] for p in _supported(ang, method)) for d in degs) and len(degs) in (1, len(pts)) and 0 <= int(rot) < 2 ** 32 - len(pts):
+                    _oracle_grid(ctx, ag, ang, bg, method, pts, wts, degs, int(rot), None if cen is None else np.array(cen, dtype=float), "atomgrid.AtomGrid")
+        elif op in ("from_pruned", "_find_degrees_for_radial_points") and w.get("d_sectors"):
+            rsect = w.get("r_sectors")
+            dsec = w["d_sectors"]
+            radius = w.get("radius", 1.0)
+            if sorted(rsect) == list(rsect) and len(dsec) == len(rsect) + 1 and all(d <= max(p[0] for p in _supported(ang, method)) for d in dsec):
+                code = SNIP_PRUNED.format(pts=pts.tolist(), wts=wts.tolist(), radius=radius, rsect=list(rsect), dsec=list(dsec), method=method)
+                try:
+                    exec(compile(code, "<c05-oracle-at>", "exec"), {"__name__": "c05_oracle_at"})
+                except AssertionError as e:
+                    ctx.fail("oracle", "atomgrid.AtomGrid.from_pruned", str(e)[:300], witness=w, snippet=code)
+    except Exception as e:  # noqa: BLE001
+        ctx.fail("oracle", "atomgrid.AtomGrid", f"the property cannot be evaluated at the disagreement: {type(e).__name__}: {e}", witness=w)
